@@ -66,6 +66,8 @@ type c14bElem struct {
 	Kind    string                 `json:"kind"`              // scripted | fault_inject | ip_access | payload_limit
 	Phase   string                 `json:"phase,omitempty"`   // scripted: before-route | after-route | after-choose-host | send
 	Verdict string                 `json:"verdict,omitempty"` // scripted
+	Gate    string                 `json:"gate,omitempty"`    // tstream-async: the terminating goroutine first waits for: try1 | try2 (that many upstream request frames written) | answered (response on the downstream wire)
+	Code    int                    `json:"code,omitempty"`    // tstream-async: status passed to TerminateStream (default 503)
 	Label   string                 `json:"label,omitempty"`   // built-in: short name of the configuration
 	Class   string                 `json:"class,omitempty"`   // built-in: class named in finding keys
 	Config  map[string]interface{} `json:"config,omitempty"`  // built-in: the JSON configuration
@@ -110,6 +112,8 @@ type c14bAccess struct {
 type c14bAsync struct {
 	Idx, Req int
 	OK       bool
+	Attempts int   // upstream request frames of the request on the wire when TerminateStream returned
+	AtMs     int64 // virtual time of the call
 }
 
 var c14bCur struct {
@@ -248,10 +252,40 @@ func (f *c14bFilter) OnReceive(ctx context.Context, headers api.HeaderMap, buf a
 	case "tstream-async":
 		// the documented use of TerminateStream: the filter lets the request pass and another goroutine terminates it
 		// at any later time
-		idx, req, rh := f.idx, f.req, f.rh
-		vrt.GoNamed("filter-terminator", func() {
-			ok := rh.TerminateStream(c14bScriptedCode)
-			c14bCur.async = append(c14bCur.async, c14bAsync{Idx: idx, Req: req, OK: ok})
+		idx, req, rh, gate, code := f.idx, f.req, f.rh, f.spec.Gate, f.spec.Code
+		if code == 0 {
+			code = c14bScriptedCode
+		}
+		run, token := c14bCur.run, ""
+		if cs := c14bCur.cs; cs != nil && req < len(cs.Sc.Requests) {
+			token = cs.Sc.Requests[req].Token
+		}
+		frames := func() int {
+			for _, o := range run.obs.Ups {
+				run.parseUp(o)
+			}
+			return run.obs.Attempts[token]
+		}
+		// (an environment thread: if its gate never opens it just stays parked, like an upstream peer without work)
+		vrt.GoNamed("env:terminator", func() {
+			if gate != "" {
+				vrt.WaitUntil("terminator: gate "+gate, func() bool {
+					if run == nil || run.done {
+						return false
+					}
+					switch gate {
+					case "try1":
+						return frames() >= 1
+					case "try2":
+						return frames() >= 2
+					case "answered":
+						return run.downAnswered(token)
+					}
+					return true
+				})
+			}
+			ok := rh.TerminateStream(code)
+			c14bCur.async = append(c14bCur.async, c14bAsync{Idx: idx, Req: req, OK: ok, Attempts: frames(), AtMs: int64(vrt.Now() / time.Millisecond)})
 		})
 	case "append":
 		// the receive filter writes the response itself through the handler's Append* methods (the stream ends there)
@@ -703,7 +737,10 @@ func c14bExpect(cs *c14bCase, k int) c14bExp {
 // ---------------------------------------------------------------------------
 // the oracle
 
+var c14bRes *vrt.Result // result of the execution being checked
+
 func c14bCheck(cs *c14bCase, obs *hpObs, r *vrt.Result, calls []c14bCall, access []c14bAccess, errs []string, report func(kind, detail string)) {
+	c14bRes = r
 	if r.Diverged != "" || r.StepLimit || r.Deadlock {
 		report("HARNESS execution did not complete normally", r.String())
 		return
@@ -714,7 +751,9 @@ func c14bCheck(cs *c14bCase, obs *hpObs, r *vrt.Result, calls []c14bCall, access
 	}
 	for _, pn := range r.Panics {
 		first := strings.SplitN(pn, "\n", 2)[0]
-		if strings.Contains(first, "(env:") || strings.Contains(first, "(main)") {
+		if strings.Contains(first, "(env:terminator") {
+			report("asynchronous TerminateStream: panic in the calling goroutine", pn)
+		} else if strings.Contains(first, "(env:") || strings.Contains(first, "(main)") {
 			report("HARNESS panic in harness thread", pn)
 		} else {
 			report("uncaught panic in a proxy goroutine", pn)
@@ -815,7 +854,9 @@ func c14bCheckReq(cs *c14bCase, k int, obs *hpObs, allCalls []c14bCall, access [
 	// --- send filters: configured order, at most once per response
 	last := -1
 	for _, c := range send {
-		if c.Idx <= last {
+		// (a retried request: the abandoned try's response passes the send filters before the retry is decided,
+		// so the chain runs once per upstream response - checked in c14bCheckAsyncRetry)
+		if c.Idx <= last && !cs.Sc.RetryOn {
 			report("send filters not run in configured order / more than once per response", logStr)
 		}
 		last = c.Idx
@@ -861,6 +902,10 @@ func c14bCheckReq(cs *c14bCase, k int, obs *hpObs, allCalls []c14bCall, access [
 		return true
 	}
 
+	if exp.Async && cs.Sc.RetryOn {
+		c14bCheckAsyncRetry(cs, k, obs, down, send, expSend, logStr, report)
+		return
+	}
 	if exp.Async && exp.Unspecified == "" && !exp.Terminated && !disconnect {
 		// TerminateStream from another goroutine races with everything else. Whoever wins, the statement's
 		// consequences hold: at most one forward, exactly one response, which passed the send filters once.
@@ -1085,7 +1130,14 @@ func c14bScr(phase, verdict string) c14bElem {
 
 func c14bElemName(e c14bElem) string {
 	if e.Kind == "scripted" {
-		return e.Phase + "=" + e.Verdict
+		n := e.Phase + "=" + e.Verdict
+		if e.Gate != "" {
+			n += "@" + e.Gate
+		}
+		if e.Code != 0 {
+			n += fmt.Sprintf("/%d", e.Code)
+		}
+		return n
 	}
 	return e.Kind + "{" + e.Label + "}"
 }
@@ -1119,6 +1171,9 @@ func c14bName(cs *c14bCase) string {
 	if cs.RoutePF != nil {
 		b, _ := stdjson.Marshal(cs.RoutePF)
 		s += " route_pf=" + string(b)
+	}
+	if cs.Sc.RetryOn {
+		s += fmt.Sprintf(" retry_on(%d)", cs.Sc.NumRetries)
 	}
 	if cs.Sc.DownDisconnect {
 		s += " down-disconnect"
@@ -1550,6 +1605,7 @@ func c14bScenarios() []c14bCase {
 		}
 	}
 	add("async", false, c14bAsyncScenarios(full))
+	add("async-retry", false, c14bAsyncRetryScenarios(full))
 	add("alone", true, c14bAlone(full))
 	add("api", true, c14bAPI(full))
 	add("two", false, c14bTwo(full))
@@ -1578,6 +1634,139 @@ func c14bAsyncScenarios(full bool) []c14bCase {
 				cs.Src = "10.1.2.5:4000"
 				cs.Name = c14bName(&cs)
 				out = append(out, cs)
+			}
+		}
+	}
+	return out
+}
+
+// c14bCheckAsyncRetry: TerminateStream from another goroutine against a request that is retried. The oracles are
+// the statement's and C03's: exactly one response (the termination's or one produced for an upstream outcome),
+// not later than the route timeout on the virtual clock; at quiescence no stream left in activeStreams and no
+// request goroutine left blocked; nothing is written upstream for the request after its response or after a
+// TerminateStream that succeeded before anything had left; the response passes the send filters once.
+func c14bCheckAsyncRetry(cs *c14bCase, k int, obs *hpObs, down []hpFrame, send []c14bCall, expSend []int, logStr string, report func(kind, detail string)) {
+	r := c14bRes
+	sc := &cs.Sc
+	token := sc.Requests[k].Token
+	attempts := obs.Attempts[token]
+	term := "not-called"
+	var ta *c14bAsync
+	for i := range c14bCur.async {
+		if c14bCur.async[i].Req == k {
+			ta = &c14bCur.async[i]
+			term = fmt.Sprint(ta.OK)
+		}
+	}
+	workerBlocked := ""
+	for _, b := range r.Blocked {
+		if !strings.Contains(b, "(env:") {
+			workerBlocked = b
+		}
+	}
+	ctx := fmt.Sprintf("TerminateStream=%s %+v, %d upstream request frames; filters: %s; blocked=%v log=%v", term, c14bCur.async, attempts, logStr, r.Blocked, obs.Log)
+	if len(down) > 1 {
+		report("asynchronous TerminateStream: more than one response for one request", fmt.Sprintf("%d responses %+v; %s", len(down), down, ctx))
+		return
+	}
+	if len(down) == 0 {
+		if sc.DownDisconnect {
+			return
+		}
+		// same root-cause class naming as C03: what the request's goroutine does + the stream's internal state
+		w := "worker goroutine exited"
+		if workerBlocked != "" {
+			w = "worker goroutine waiting forever (" + workerBlocked[strings.Index(workerBlocked, " at ")+4:] + ")"
+		}
+		sig, full := "stream no longer tracked", ""
+		if len(obs.Stuck) > 0 {
+			full = obs.Stuck[0]
+			f := strings.Fields(full)
+			sig = f[0] + " " + f[1] + fmt.Sprintf(" retried=%v", attempts > 1)
+		}
+		sig += fmt.Sprintf(" terminate=%s deviations=%d", term, r.Cost)
+		report("asynchronous TerminateStream: request never completed (no response, client did not disconnect): "+w+"; "+sig, fmt.Sprintf("state: %s; %s", full, ctx))
+		return
+	}
+	f := down[0]
+	if limit := int64(sc.RouteTimeoutMs + 10*sc.NumRetries + 50); f.AtMs > limit {
+		report("asynchronous TerminateStream: the response came later than the route timeout allows", fmt.Sprintf("response at %dms, route timeout %dms; %s", f.AtMs, sc.RouteTimeoutMs, ctx))
+	}
+	if workerBlocked != "" {
+		report("asynchronous TerminateStream: a request goroutine is blocked forever although the request was answered", workerBlocked+"; "+ctx)
+	}
+	if obs.Active != 0 {
+		report("asynchronous TerminateStream: the proxy still tracks an active stream although the request was answered", fmt.Sprintf("activeStreams=%d %v; %s", obs.Active, obs.Stuck, ctx))
+	}
+	for ui, u := range obs.Ups {
+		for _, uf := range u.Requests {
+			if uf.Token == token && uf.Seq > f.Seq {
+				report("asynchronous TerminateStream: upstream attempt written after the downstream response", fmt.Sprintf("response seq %d, upstream request on conn %d seq %d; %s", f.Seq, ui, uf.Seq, ctx))
+			}
+		}
+	}
+	if ta != nil && ta.OK && ta.Attempts == 0 && attempts > 0 {
+		report("asynchronous TerminateStream: request forwarded upstream after a termination that succeeded before anything had left", ctx)
+	}
+	if f.Status == bolt.ResponseStatusSuccess && (f.Token != token || f.BodyToken != token) && !c14bHas(cs.Chain, "replace") {
+		report("asynchronous TerminateStream: success response carries another exchange's header or body", fmt.Sprintf("token %q body %q; %s", f.Token, f.BodyToken, ctx))
+	}
+	// send filters: once, in order, per response the proxy processed - the delivered one and, before it, the
+	// responses of abandoned tries (observed: a retriable 5xx passes the send filters before the retry is decided)
+	var got []int
+	for _, c := range send {
+		got = append(got, c.Idx)
+	}
+	ok := false
+	for n := 1; n <= attempts+1 && !ok; n++ {
+		var want []int
+		for i := 0; i < n; i++ {
+			want = append(want, expSend...)
+		}
+		ok = fmt.Sprint(got) == fmt.Sprint(want)
+	}
+	if !ok {
+		report("a response reached the client without passing the send filters once in order per processed response", fmt.Sprintf("send filters called %v, chain %v, %d tries; %s", got, expSend, attempts, ctx))
+	}
+}
+
+// asynchronous TerminateStream x retries: the route retries (retry_on, 1-2 retries, 2 hosts), the first try is
+// answered with a retriable status or the upstream closes, the next try is answered or not; TerminateStream (403 /
+// 500) is called from another goroutine at once, once the first / the second upstream request frame is on the wire,
+// or once the response is on the downstream wire - and from there at every scheduling point within the bound.
+func c14bAsyncRetryScenarios(full bool) []c14bCase {
+	var out []c14bCase
+	type rs struct {
+		script  []string
+		retries int
+	}
+	scripts := []rs{
+		{[]string{upReplyBusy, upReply200}, 1}, {[]string{upReply5xx, upReply200}, 1}, {[]string{upClose, upReply200}, 1},
+		{[]string{upReplyBusy, upSilent}, 1}, {[]string{upReply5xx, upSilent}, 1},
+		{[]string{upReplyBusy, upReplyBusy, upReply200}, 2}, {[]string{upReplyBusy, upClose, upReply200}, 2},
+	}
+	add := func(ch []c14bElem, s rs, deep bool) {
+		cs := c14bMk(ch, hpRequest{Token: "t1", Body: true, Script: s.script})
+		cs.Sc.Hosts, cs.Sc.RetryOn, cs.Sc.NumRetries = 2, true, s.retries
+		if deep && full {
+			cs.Sc.Bound = 2
+		}
+		cs.Name = c14bName(&cs)
+		out = append(out, cs)
+	}
+	for si, s := range scripts {
+		for _, gate := range []string{"", "try1", "try2", "answered"} {
+			for _, code := range []int{403, 500} {
+				if code == 500 && !(gate == "" || gate == "try2") && !full {
+					continue
+				}
+				a := c14bElem{Kind: "scripted", Phase: "after-route", Verdict: "tstream-async", Gate: gate, Code: code}
+				add([]c14bElem{a}, s, si < 4 && code == 403 && (gate == "" || gate == "try2"))
+				if code == 403 && (full || gate == "try2") {
+					b := a
+					b.Phase = "before-route"
+					add([]c14bElem{b, c14bScr("send", "continue")}, s, false)
+				}
 			}
 		}
 	}
